@@ -5,4 +5,7 @@ impl ZXMixer {
     pub fn verif_set_rate(&mut self, rate: usize) { self.sample_rate = rate; }
     pub fn verif_count(&self, f: f64) -> usize { self.sample_count_for_frame_fraction(f) }
     pub fn verif_len(&self) -> usize { self.ring_buffer.len() }
+    pub fn verif_gen_sample(&mut self) -> SoundSample<f32> { self.gen_sample() }
+    pub fn verif_last_sample(&self) -> SoundSample<f32> { self.last_sample }
+    pub fn verif_set_sources(&mut self, use_beeper: bool, use_ay: bool) { self.use_beeper = use_beeper; self.use_ay = use_ay; }
 }
